@@ -96,6 +96,13 @@ def fold(ob, parts, wall):
     return rec
 
 
+def _safe_str(e):
+    try:
+        return str(e)
+    except BaseException:
+        return "<symbolic message>"
+
+
 # ------------------------------------------------------------------------------- worker
 def run_cases(cases, total_timeout):
     import z3
@@ -182,9 +189,9 @@ def run_cases(cases, total_timeout):
                     rok, obs = False, f"{type(e).__name__}: {e}"
                 if not rok:
                     state["violation"] = dict(case=case.label, inputs=w, observed=str(obs)[:500],
-                                              symbolic=("raised " + type(v).__name__ + ": " + str(v)[:200]) if kind == "exc" else "assertion false")
+                                              symbolic=("raised " + type(v).__name__ + ": " + _safe_str(v)[:200]) if kind == "exc" else "assertion false")
                 else:
-                    state["mismatch"] = f"replay-mismatch on {w!r}: encoding says violated ({'exception ' + repr(v) if kind == 'exc' else 'assertion'}), real code ok"
+                    state["mismatch"] = f"replay-mismatch on {w!r}: encoding says violated ({'exception ' + type(v).__name__ + ' ' + _safe_str(v) if kind == 'exc' else 'assertion'}), real code ok"
                 return True
             return False
 
